@@ -17,8 +17,11 @@ MANIFEST = {
             "Append / Update / re-open steps, the stored info record decodes to (root, append path, size) of the current list and the "
             "run continues from it (codec round trip assumed). LIMITS stated as theorems/docs: the soundness theorem is for verifiers "
             "that know the tree size (proof.Size is not authenticated: a `_refuted` witness shows a wrong size makes the POSITION "
-            "claim false; tested for wrong sizes: an accepted proof only claims hashes of leaves of the list) and for claims at leaf "
-            "indexes; completeness is for ascending distinct positions (other orders, absent and repeated queries are tested). "
+            "claim false; tested for wrong sizes: an accepted proof only claims hashes of leaves of the list). Soundness holds for an "
+            "ARBITRARY index list (the indexes travel with the proof): every accepted non-zero index names a node of the tree and every "
+            "claim -- leaf, branch, pass-through, ancestor of another claim -- carries the true node value; a proof verifies against at "
+            "most one root. Completeness is for ascending distinct positions (other orders, absent and repeated queries are tested). "
+            "Resolution of query HASHES to positions is refuted as a theorem for repeated values (last-write index; known finding). "
             "Outside the proofs: resolving query hashes to positions (known finding for repeated values) and the node store, tied by running Go and model on every case "
             "(idxs, sibling hashes, verdicts, roots, witnesses, update/append scripts on lists with duplicates) and by the oracle.",
     "note": "Trusted: Coq kernel + vm_compute, in-Coq SHA-256 (checked on FIPS vectors), fidelity of the hand model as sampled by the "
@@ -103,7 +106,9 @@ def key_of(r, spec_bad, code=0):
         cls = "empty-tree" if r["n"] == 0 else "n>=1"
         return "c11:rw:%s:%s" % (cls, suffix)
     if k == "proof":
-        return "c11:proof:%s:%s" % ("dup" if r.get("dup") else "nodup", suffix)
+        acc = sorted({t["k"] for t in r.get("tampers", []) if t.get("v") and t.get("k") != 5})
+        cls = ("dup" if r.get("dup") else "nodup") + "".join(":accepted-tamper-%d" % a for a in acc[:1])
+        return "c11:proof:%s:%s" % (cls, suffix)
     if k == "seq":
         d = code // 4  # detail of check_seq: 1 state, 2 reload, 4 proofs, 8 right witnesses, 16 failing proofs are stale-index hits
         if spec_bad and d == 4 + 16 and not r.get("panic"):
@@ -214,9 +219,9 @@ def run(ck):
     if not binp:
         return
     if ck.tier == "quick":
-        args = ["-nmax", "70", "-pexp", "8", "-nsub", "6", "-nproof", "150", "-pmax", "70", "-nupd", "120", "-rwmax", "40", "-nseq", "40"]
+        args = ["-nmax", "70", "-pexp", "8", "-nsub", "6", "-nproof", "110", "-pmax", "70", "-nupd", "90", "-rwmax", "40", "-nseq", "40"]
     else:
-        args = ["-nmax", "600", "-pexp", "11", "-nsub", "8", "-nproof", "1500", "-pmax", "300", "-nupd", "800", "-rwmax", "110", "-nseq", "600", "-nrwx", "400"]
+        args = ["-nmax", "600", "-pexp", "11", "-nsub", "8", "-nproof", "1500", "-pmax", "300", "-nupd", "800", "-rwmax", "110", "-nseq", "600", "-nrwx", "400", "-ancq", "64"]
     recs = corpus(ck, binp)
     main = run_capture(ck, binp, args)
     if main is None:
@@ -234,7 +239,10 @@ def run(ck):
                       "tree with n<=6 (8 thorough) incl. the empty query, random subsets in random order with absent and duplicate "
                       "queries and after updates, each with all single-field tamperings (each query hash, root, each sibling hash, "
                       "an index moved to an unqueried leaf, proof.Size changed to n-1/n+1/2n/n/2 with the data-level oracle, the honest hash "
-                      "claimed at an ancestor index 1..3 levels up while the leaf is claimed with another hash); scripts of Append / "
+                      "claimed at an ancestor index at EVERY level up to the child of the root while the leaf is claimed with another hash "
+                      "(first query quick, every query thorough, also for duplicate/absent query sets), an extra claim at an index that names "
+                      "no node (1, 3, first missing leaf, too long, missing internal node)); Update with positions ascending, descending, "
+                      "random order, a position twice with equal / different data; scripts of Append / "
                       "Update / re-open-from-store steps (explicit duplicate/aliasing/power-of-two scripts, each also with a re-open after "
                       "every step, and random scripts) continuing on the re-opened object, all values of the final list queried; updates: every non-empty position subset for n<=5 and random sets, "
                       "followed by one Append; right witnesses: every position 0..n+1 for every n<=40 (110 thorough); right-witness reconstruction on arbitrary/inconsistent (index, append path, witness) triples under a 3 s watchdog. Distinct = by "
